@@ -9,6 +9,8 @@ Extracted (by regular expressions over the source text, after stripping comments
   * src/control_connection.cpp          - the line-length limit passed to read_line
   * src/data_connection.cpp             - the sizes of the block buffers of recv and send
   * include/ftp/detail/ascii_*stream.hpp - default sizes of the converters' internal buffers
+  * src/utils.cpp                       - (into Generated/UtilsFacts.lean) try_parse_uint8 / 16 / 32 TRANSLATED (limit type, cast type,
+                                          result type as written)
   * src/client.cpp                      - (into Generated/ClientFacts.lean) the member functions whose body is exactly
                                           `make_command(<verb>[, <arg>])` + `process_command(command)` are TRANSLATED into
                                           programs of the model's monad; per member function the command literals it names
@@ -21,6 +23,7 @@ ROOT = os.path.dirname(os.path.dirname(os.path.abspath(__file__)))
 REPO = os.environ.get("VERIF_REPO", "/repo")
 OUT = os.path.join(ROOT, "lean", "Ftp", "Generated", "SourceFacts.lean")
 OUT_CLIENT = os.path.join(ROOT, "lean", "Ftp", "Generated", "ClientFacts.lean")
+OUT_UTILS = os.path.join(ROOT, "lean", "Ftp", "Generated", "UtilsFacts.lean")
 
 class ExtractError(Exception):
     pass
@@ -149,6 +152,44 @@ def render_client(cf, error):
     L += ["", "end Ftp.Generated", ""]
     return "\n".join(L)
 
+
+NARROW = re.compile(r'\{\s*std::uint64_t\s+(\w+)\s*;\s*if\s*\(\s*!\s*try_parse_uint64\s*\(\s*(\w+)\s*,\s*\1\s*\)\s*\)\s*return\s+false\s*;\s*'
+                    r'if\s*\(\s*\1\s*>\s*std::numeric_limits\s*<\s*std::uint(\d+)_t\s*>\s*::\s*max\s*\(\s*\)\s*\)\s*return\s+false\s*;\s*'
+                    r'(\w+)\s*=\s*static_cast\s*<\s*std::uint(\d+)_t\s*>\s*\(\s*\1\s*\)\s*;\s*return\s+true\s*;\s*\}\s*$')
+
+def utils_facts():
+    """the three narrowing parsers of src/utils.cpp, translated: (name, bits of the limit compared with, bits of the cast, bits of the result type)"""
+    ut = src("src/utils.cpp")
+    out = []
+    for bits in (8, 16, 32):
+        name = "try_parse_uint%d" % bits
+        m = re.search(r"bool\s+%s\s*\(\s*std::string_view\s+(\w+)\s*,\s*std::uint(\d+)_t\s*&\s*(\w+)\s*\)" % name, ut)
+        if not m:
+            raise ExtractError("utils.cpp: signature of %s not recognised" % name)
+        body = body_of(ut, m.group(0), name)
+        b = NARROW.match(re.sub(r"\s+", " ", body))
+        if not b or b.group(2) != m.group(1) or b.group(4) != m.group(3):
+            raise ExtractError("utils.cpp: body of %s is not `parse 64 bits; compare with the limit; narrow`" % name)
+        out.append((name, int(b.group(3)), int(b.group(5)), int(m.group(2))))
+    return out
+
+def render_utils(uf, error):
+    L = ["/-", "  GENERATED by tools/gen_source_facts.py from src/utils.cpp on every run of a check - do not edit.",
+         "  try_parse_uint8 / 16 / 32, TRANSLATED: parse 64 bits with the model's `parseU64`, refuse what exceeds",
+         "  std::numeric_limits<T>::max() of the type written in the comparison, narrow with the static_cast that is written",
+         "  (modulo 2^bits of the cast's type).  What the translator could not read is absent.", "-/", "import Ftp.Model.Utils", "namespace Ftp.Generated", "open Ftp", ""]
+    if uf is None:
+        L.append("-- not extracted: %s" % error.replace("\n", " ")[:300])
+    else:
+        for name, lim, cast, res in uf:
+            L += ["/-- `%s`: limit `std::numeric_limits<std::uint%d_t>::max()`, `static_cast<std::uint%d_t>`, result type `std::uint%d_t` -/" % (name, lim, cast, res),
+                  "def %s (str : Bytes) : Option Nat :=" % name,
+                  "  match Utils.parseU64 str with",
+                  "  | none => none",
+                  "  | some value => if value > 2 ^ %d - 1 then none else some (value %% 2 ^ %d %% 2 ^ %d)" % (lim, cast, res), ""]
+    L += ["end Ftp.Generated", ""]
+    return "\n".join(L)
+
 def extract():
     """returns (facts, errors): every fact is extracted on its own; a fact whose pattern no longer matches is left out of the
     generated file (only the theorems that mention it then fail to build) and reported in `errors`"""
@@ -202,7 +243,7 @@ def render(f, errors):
 
 # which property theorems depend on which fact (for the error text of the audit)
 USERS = {"verbs": ["C19"], "positiveBelow": ["C15"], "negativeFrom": ["C15"], "intermediateFrom": ["C15"], "intermediateBelow": ["C15"],
-         "ctlMaxLine": ["C01", "C08"], "sendBlock": ["C04", "C12"], "recvBlock": ["C03", "C12"], "asciiInBuf": ["C05"], "asciiOutHint": ["C05"], "clientFacts": ["C10", "C02"]}
+         "ctlMaxLine": ["C01", "C08"], "sendBlock": ["C04", "C12"], "recvBlock": ["C03", "C12"], "asciiInBuf": ["C05"], "asciiOutHint": ["C05"], "clientFacts": ["C10", "C02"], "utilsFacts": ["C08"]}
 
 def generate():
     """returns (changed, facts, errors)"""
@@ -223,7 +264,17 @@ def generate():
     if cold != ctext:
         tmp = OUT_CLIENT + ".%d" % os.getpid()
         open(tmp, "w").write(ctext); os.replace(tmp, OUT_CLIENT)
-    return old != text or cold != ctext, f, errors
+    try:
+        uf, uerr = utils_facts(), None
+    except (ExtractError, OSError, ValueError, IndexError) as e:
+        uf, uerr = None, str(e)
+        errors["utilsFacts"] = uerr
+    utext = render_utils(uf, uerr or "")
+    uold = open(OUT_UTILS).read() if os.path.exists(OUT_UTILS) else None
+    if uold != utext:
+        tmp = OUT_UTILS + ".%d" % os.getpid()
+        open(tmp, "w").write(utext); os.replace(tmp, OUT_UTILS)
+    return old != text or cold != ctext or uold != utext, f, errors
 
 def problems_for(pid, errors):
     return ["translator tools/gen_source_facts.py could not read `%s` from the source: %s" % (k, e) for k, e in sorted(errors.items()) if pid in USERS.get(k, [])]
